@@ -368,7 +368,8 @@ Definition process_write (c : conn) (ws : list wcap) : outcome (conn * Z * list 
 Inductive wop :=
 | WEnq (reclaim : bool) (msg : list Z)   (* ares_conn_query_write *)
 | WWritable                              (* write event: process_write *)
-| WPendingFlush.                         (* ares_process_pending_write *)
+| WPendingFlush                          (* ares_process_pending_write *)
+| WReadOk.                               (* ares_conn_read() succeeded: state_flags |= CONNECTED *)
 
 (* A failed flush (status <> SUCCESS) is followed by handle_conn_error(): the connection is
    closed; later operations do not find it. *)
@@ -385,6 +386,7 @@ Fixpoint run_wops (c : conn) (pcb np : bool) (ops : list wop) (ws : list wcap)
               if np then do f <- conn_flush c ws;
                          let '(c2, st, evs, ws2) := f in Ok (c2, false, st, evs, ws2)
               else Ok (c, np, ARES_SUCCESS, [], ws)
+            | WReadOk => Ok (mkconn (c_tcp c) true (c_tfo_initial c) (c_out c) (c_rw c), np, ARES_SUCCESS, [], ws)
             end;
     let '(c1, np1, st, evs, ws1) := r in
     if negb (st =? ARES_SUCCESS) && negb (st =? ARES_EBADQUERY) then Ok (c1, evs, Closed)
